@@ -143,7 +143,7 @@ pub fn flush_fault(to: Fmt, acc: &mut Acc) {
 }
 
 pub fn run(ctx: &Ctx) -> i32 {
-    let n = ctx.size(900, 40000);
+    let n = ctx.size(900, 150000);
     let seed = ctx.seed;
     let acc = crate::par::run(n, 2, |i, acc| {
         let mut rng = Rng::derive(seed, 0xc12, i as u64);
